@@ -37,6 +37,9 @@ func Abs(ctx *expr.Context, input system.Collection, args ...expr.Expression) (s
 			return nil, err
 		}
 		// Absolution number
+		if number == math.MinInt32 {
+			return system.Collection{}, nil // |MinInt32| overflows, and overflow results in empty
+		}
 		res := math.Abs(float64(number))
 		return system.Collection{system.Integer(res)}, nil
 	case system.Decimal:
@@ -81,6 +84,9 @@ func Ceiling(ctx *expr.Context, input system.Collection, args ...expr.Expression
 	}
 	// Ceiling number
 	result := math.Ceil(number)
+	if result < math.MinInt32 || result > math.MaxInt32 {
+		return system.Collection{}, nil // does not fit an Integer: overflow results in empty
+	}
 	return system.Collection{system.Integer(result)}, nil
 }
 
@@ -124,6 +130,9 @@ func Floor(ctx *expr.Context, input system.Collection, args ...expr.Expression) 
 	}
 	// Flooring number
 	result := math.Floor(number)
+	if result < math.MinInt32 || result > math.MaxInt32 {
+		return system.Collection{}, nil // does not fit an Integer: overflow results in empty
+	}
 	return system.Collection{system.Integer(result)}, nil
 }
 
@@ -339,6 +348,9 @@ func Truncate(ctx *expr.Context, input system.Collection, args ...expr.Expressio
 	}
 	// Ceiling number
 	result := math.Trunc(number)
+	if result < math.MinInt32 || result > math.MaxInt32 {
+		return system.Collection{}, nil // does not fit an Integer: overflow results in empty
+	}
 	return system.Collection{system.Integer(result)}, nil
 }
 
